@@ -114,7 +114,11 @@ func capEval(tr *Tracer, rng *rand.Rand, caps [][][2]int, v int, custom bool, vi
 		cs = append(cs, c)
 	}
 	t.Capabilities = cs
-	ver, err := t.Version(str(v))
+	vs := str(v)
+	if v < 0 && rng.Intn(3) == 0 {
+		vs = "" // no version at all is an unparsable version too (an empty *bound* means "unbounded", an empty version nothing)
+	}
+	ver, err := t.Version(vs)
 	has := []bool{}
 	foreign := false
 	if err == nil {
